@@ -22,16 +22,17 @@ type c19Case struct {
 	callers int
 	hold    time.Duration // how long each holder keeps its token (0 = a schedule point only)
 	backlog int           // maximum backlog (0 = 10)
+	timeout time.Duration // backlog timeout given to the pool (0 = 1 s, which is also the library's default)
 	eager   bool          // backlog timeouts may fire at any point (a caller giving up while it is being handed a token)
 }
 
 func c19Scenario(cs c19Case) *mc.Scenario {
 	return &mc.Scenario{
 		Name:   "C19/" + cs.kind,
-		Params: fmt.Sprintf("limit=%d callers=%d backlog=%d timeout=1s hold=%v eager-clock=%v", cs.limit, cs.callers, cs.bl(), cs.hold, cs.eager),
+		Params: fmt.Sprintf("limit=%d callers=%d backlog=%d timeout=%v hold=%v eager-clock=%v", cs.limit, cs.callers, cs.bl(), cs.to(), cs.hold, cs.eager),
 		Cfg:    vrt.Config{Events: true, MaxSteps: 6000, EagerClock: cs.eager, Horizon: int64(10 * time.Second)},
 		Body: func(x *mc.Exec) {
-			st := buildStack(cs.kind, cs.limit, stackOpts{maxBacklog: cs.bl()})
+			st := buildStack(cs.kind, cs.limit, stackOpts{maxBacklog: cs.bl(), timeout: cs.to()})
 			ws := &waitState{st: st, inAcq: make([]bool, cs.callers), granted: make([]bool, cs.callers), returned: make([]bool, cs.callers),
 				tid: make([]int, cs.callers), retClock: make([]int64, cs.callers)}
 			x.Aux = ws
@@ -135,6 +136,13 @@ func c19Scenario(cs c19Case) *mc.Scenario {
 	}
 }
 
+func (cs c19Case) to() time.Duration {
+	if cs.timeout == 0 {
+		return time.Second
+	}
+	return cs.timeout
+}
+
 func (cs c19Case) bl() int {
 	if cs.backlog == 0 {
 		return 10
@@ -150,6 +158,8 @@ func runC19(c *Ctx) {
 		c.Explore(c19Scenario(c19Case{kind: kind, limit: 2, callers: 3}), mc.Options{PreemptBound: c.Pick(2, 3)})
 		// holders keep their tokens for 300 ms of virtual time (three generations fit into the 1 s timeout)
 		c.Explore(c19Scenario(c19Case{kind: kind, limit: 1, callers: 3, hold: 300 * time.Millisecond}), mc.Options{PreemptBound: 2})
+		// a timeout above the library's default: the third caller is served after 1.4 s, inside the 2 s it was given
+		c.Explore(c19Scenario(c19Case{kind: kind, limit: 1, callers: 3, hold: 700 * time.Millisecond, timeout: 2 * time.Second}), mc.Options{PreemptBound: c.Pick(1, 2)})
 		// exactly as many callers as limit + backlog: nobody may be turned away
 		c.Explore(c19Scenario(c19Case{kind: kind, limit: 1, callers: 3, backlog: 2}), mc.Options{PreemptBound: 2})
 		// a queued caller's timeout fires while it is being handed a token: the callers behind it must
